@@ -217,7 +217,8 @@ def node_code(n: Node, accounts: dict) -> bytes:
         body += [("PUSH", 1), "RETURNDATASIZE", ("PUSH", 0), "RETURNDATACOPY", "STOP"]
     elif n.outcome == "static_write":
         # succeeds normally, fails inside a static context
-        body += [("PUSH", 5), ("PUSH", 2), "SSTORE", ("PUSHN", 2, total), ("PUSH", 0), "RETURN"]
+        write = [[("PUSH", 5), ("PUSH", 2), "SSTORE"], [("PUSH", 5), ("PUSH", 2), "TSTORE"], [("PUSH", 0), ("PUSH", 0), "LOG0"]][n.addr % 3]
+        body += write + [("PUSHN", 2, total), ("PUSH", 0), "RETURN"]
     return assemble(body + data)
 
 
